@@ -335,6 +335,22 @@ def check_C18(tier, seed):
         L.append({"id": "h-repo-%d" % i, "family": "history", "wgsl": text, "opts": F.opts(bmv=True, enc=True, mv="glam"), "repeat": 2})
     for i, d_ in enumerate([[(0, 0), (0, 1)], [(0, 1), (0, 0)], [(1, 0), (0, 0)], [(0, 0), (1, 0)]]):
         L.append({"id": "h-anagram-%d" % i, "family": "history", "S": F.bgd_shader([{"g": g, "b": b} for g, b in d_], use=True), "opts": F.opts(), "repeat": 1})
+    # near-collisions: inputs that agree in everything a lossy cache key might look at, and differ in one thing
+    def twin(vty, aty):
+        return {"structs": [{"name": "VertexInput", "members": [{"name": "v0", "ty": vty, "io": {"k": "loc", "n": 0}}, {"name": "v1", "ty": {"k": "vec", "n": 2, "s": "f32"}, "io": {"k": "loc", "n": 1}}]},
+                            {"name": "Store", "members": [{"name": "a", "ty": {"k": "array", "n": 4, "e": aty}}, {"name": "b", "ty": {"k": "scalar", "s": "f32"}}]}],
+                "globals": [{"name": "store", "space": "storage_rw", "group": "0", "binding": "0", "ty": {"k": "struct", "name": "Store"}}, {"name": "pc", "space": "push", "ty": {"k": "vec", "n": 4, "s": "f32"}}],
+                "consts": [], "overrides": [], "functions": [],
+                "entries": [{"name": "vs_main", "stage": "vertex", "params": [{"k": "struct", "name": "v", "ty": "VertexInput"}], "result": {"k": "builtin", "b": "position"}, "body": [{"k": "access", "g": "pc", "how": "load"}], "wg": []},
+                            {"name": "cs_main", "stage": "compute", "params": [], "body": [{"k": "access", "g": "store", "how": "load"}], "wg": ["8"]}]}
+    twins = [twin({"k": "vec", "n": 2, "s": "f32"}, {"k": "vec", "n": 3, "s": "f32"}), twin({"k": "vec", "n": 4, "s": "u32"}, {"k": "vec", "n": 4, "s": "f32"}),
+             twin({"k": "vec", "n": 2, "s": "f32"}, {"k": "vec", "n": 4, "s": "u32"}), twin({"k": "scalar", "s": "i32"}, {"k": "vec", "n": 3, "s": "f32"})]
+    base_o = F.opts(bmv=True, enc=True, mv="glam")
+    for i, T in enumerate(twins):
+        L.append({"id": "h-twin-%d" % i, "family": "history", "S": T, "opts": base_o, "repeat": 1})
+    for i, flip in enumerate([{"bmv": False}, {"bmh": True, "enc": False}, {"enc": False}, {"serde": True}, {"mv": "rust"}, {"mv": "nalgebra", "enc": False}, {"rustfmt": True}, {"validate": "all"},
+                              {"validate": "empty"}, {"validate": "all-PUSH_CONSTANT"}, {"validate": "only-PUSH_CONSTANT"}, {"include": "a.wgsl"}, {"include": "b.wgsl"}, {"include": "dir/a.wgsl"}]):
+        L.append({"id": "h-flip-%d" % i, "family": "history", "S": twins[0], "opts": dict(base_o, **flip), "repeat": 1})
     # (i) in one process, with repeats
     evA = run_vdriver_raw("gen", L, "C18_A", extra=["--no-project", "--no-s"])
     # (ii) another process: reversed order (different history of previous calls), other cwd, scrubbed environment
